@@ -170,6 +170,7 @@ class SockState:
         self.timeouts: list[tuple[str, typing.Any]] = []  # (phase, value)
         self.phase = "connected"
         self.fault_on_recv: BaseException | None = None
+        self.fault_when_drained: BaseException | None = None  # raised by the first recv that finds nothing readable
         self.recv_faults: dict[int, BaseException] = {}  # nth recv (0-based, counted per socket) -> exception
         self.peer_closed = False
         self.outq = bytearray()  # server bytes not yet accepted by the kernel
@@ -192,6 +193,7 @@ class ServerConn:
         self.tunnel: bytes | None = None  # CONNECT target once a tunnel is established
         self.connects: list[wire.Request] = []
         self.raw_after_garble = bytearray()
+        self.tunnel_pending = False
 
     @property
     def index(self) -> int:
@@ -438,6 +440,12 @@ class Net:
         p.register(sock.fileno(), select.POLLIN)
         return bool(p.poll(0))
 
+    def _has_data(self, sock: ScriptedSocket) -> bool:
+        try:
+            return len(socket.socket.recv(sock, 1, socket.MSG_PEEK | socket.MSG_DONTWAIT)) > 0
+        except (BlockingIOError, OSError):
+            return False
+
     def _before_recv(self, sock: ScriptedSocket) -> None:
         st = sock.vf
         n = st.n_recv
@@ -456,8 +464,12 @@ class Net:
             self._event("recv-fault", st.index, n, type(exc).__name__)
             raise exc
         self._flush(st)
-        if self._readable(sock):
+        if self._readable(sock) and not (st.peer_closed and st.fault_when_drained is not None and not self._has_data(sock)):
             return
+        if st.fault_when_drained is not None and not st.segments and not st.outq:
+            exc, st.fault_when_drained = st.fault_when_drained, None
+            self._event("recv-fault", st.index, n, type(exc).__name__)
+            raise exc
         if st.segments:
             seg = st.segments.popleft()
             st.outq += seg
@@ -503,3 +515,152 @@ class Net:
         if st.really_closed or s.fileno() < 0:
             return False
         return self._readable(s)
+
+
+# ------------------------------------------------------------------ attempt-based scripting ---
+class AttemptScript:
+    """Server behaviour given as a list of per-attempt outcomes (pure data).  An attempt is consumed when
+    (a) a dial fails, (b) a send fault fires, (c) a complete request has been received, (d) a CONNECT or the
+    (fake) TLS layer is scripted to fail.  When the list is exhausted every further request gets `default`.
+
+    Outcome kinds:
+      {"k": "connect", "err": "ECONNREFUSED"|"timeout"|"EHOSTUNREACH"|"gaierror"|"KeyboardInterrupt"|"base"|...}
+      {"k": "send", "err": <make_exc name>, "at": n}            n-th sendall of the attempt (0 = request head)
+      {"k": "recv", "err": "timeout"|"reset"|"eof"|"garbage"|"ssl"|"KeyboardInterrupt"|"base"|...}   before any response byte
+      {"k": "resp", "status": 200, "headers": [[k, v]], "body": "...", "framing": "cl"|"chunked"|"close",
+         "keepalive": true, "short": n (deliver only n body bytes, then EOF), "stray": "bytes after the message",
+         "body_fault": [n, err] (n body bytes, then err raised by the read), "segments": k}
+      {"k": "proxy_connect", "status": 403 | "garbage" | "eof"}
+      {"k": "tls", "err": "ssl"|"cert"}
+    """
+
+    def __init__(self, outcomes: list[dict[str, typing.Any]], default: dict[str, typing.Any] | None = None, body_for: typing.Callable[[wire.Request], bytes] | None = None):
+        self.outcomes = list(outcomes)
+        self.ai = 0
+        self.default = default or {"k": "resp", "status": 200, "body": "ok"}
+        self.log: list[dict[str, typing.Any]] = []  # one entry per consumed attempt
+        self.attempt_sends: dict[int, int] = {}
+        self.body_for = body_for
+
+    def _peek(self) -> dict[str, typing.Any] | None:
+        return self.outcomes[self.ai] if self.ai < len(self.outcomes) else None
+
+    def _consume(self, what: str, conn: int | None, req: wire.Request | None = None) -> dict[str, typing.Any]:
+        o = self._peek()
+        if o is None:
+            o = dict(self.default, defaulted=True)
+        self.ai += 1
+        self.log.append({"i": len(self.log), "via": what, "conn": conn, "outcome": o, "request": None if req is None else (req.method.decode("latin-1"), req.target.decode("latin-1"))})
+        return o
+
+    # -- hooks called by Net ----------------------------------------------------------------------
+    def on_dial(self, net: Net, dial: dict[str, typing.Any]) -> typing.Any:
+        o = self._peek()
+        if o is not None and o["k"] == "connect":
+            self._consume("dial", None)
+            if "delay" in o:
+                return ("delay", o["delay"])
+            return make_exc(o["err"])
+        return None
+
+    def on_tls(self, net: Net, st: SockState, kw: dict[str, typing.Any]) -> typing.Any:
+        o = self._peek()
+        if o is not None and o["k"] == "tls":
+            self._consume("tls", st.index)
+            if o.get("err") == "cert":
+                from urllib3.util.ssl_match_hostname import CertificateError
+
+                return CertificateError("hostname mismatch (injected)")
+            return make_exc("ssl")
+        return None
+
+    def on_send(self, net: Net, st: SockState, n: int, data: bytes) -> typing.Any:
+        k = self.attempt_sends.get(st.index, 0)
+        self.attempt_sends[st.index] = k + 1
+        o = self._peek()
+        if o is not None and o["k"] == "send" and k == o.get("at", 0) and st.server.tunnel_pending is False:
+            self._consume("send", st.index)
+            self.attempt_sends[st.index] = 0
+            # the peer is gone: nothing will ever be answered on this connection
+            st.server.close()
+            return make_exc(o["err"])
+        return None
+
+    def on_connect(self, net: Net, sc: ServerConn, req: wire.Request) -> typing.Any:
+        self.attempt_sends[sc.index] = 0
+        o = self._peek()
+        if o is not None and o["k"] == "proxy_connect":
+            self._consume("connect-request", sc.index, req)
+            st = o.get("status")
+            if st == "garbage":
+                sc.write(b"NOT-HTTP garbage\r\n\r\n")
+                sc.close()
+            elif st == "eof":
+                sc.close()
+            else:
+                sc.write(wire.build_response(int(st), "Denied", body=b"no tunnel", keepalive=False))
+                sc.close()
+            return True
+        return None
+
+    def on_request(self, net: Net, sc: ServerConn, req: wire.Request) -> None:
+        self.attempt_sends[sc.index] = 0
+        o = self._consume("request", sc.index, req)
+        st = sc.st
+        k = o["k"]
+        if k in ("connect", "send", "proxy_connect", "tls"):
+            # an outcome that can no longer happen for this attempt (connection reused, no proxy ...): treat as 200
+            self.log[-1]["not_applicable"] = True
+            o = dict(self.default)
+            k = "resp"
+        if k == "recv":
+            err = o["err"]
+            if err == "timeout":
+                sc.stall()
+            elif err == "reset":
+                sc.reset()
+            elif err == "eof":
+                sc.close()
+            elif err == "garbage":
+                sc.write(b"\x16\x03\x01 this is not HTTP\r\n\r\n")
+                sc.close()
+            else:
+                st.fault_on_recv = make_exc(err)
+                sc.stall()
+            return
+        body = o.get("body", "")
+        body_b = body.encode("latin-1") if isinstance(body, str) else bytes(body)
+        if self.body_for is not None and o.get("body") is None:
+            body_b = self.body_for(req)
+        if req.method == b"HEAD" or int(o.get("status", 200)) in (204, 304):
+            msg = wire.build_response(int(o.get("status", 200)), "X", [tuple(h) for h in o.get("headers", [])], b"", framing="none", keepalive=o.get("keepalive", True))
+        else:
+            msg = wire.build_response(int(o.get("status", 200)), "X", [tuple(h) for h in o.get("headers", [])], body_b, framing=o.get("framing", "cl"), chunk_sizes=o.get("chunk_sizes"), keepalive=o.get("keepalive", True) and o.get("framing", "cl") != "close")
+        split = msg.index(b"\r\n\r\n") + 4
+        closing = not (o.get("keepalive", True) and o.get("framing", "cl") != "close")
+        if "short" in o:
+            msg = msg[: split + int(o["short"])]
+            closing = True
+        if "body_fault" in o:
+            nbytes, err = o["body_fault"]
+            msg = msg[: split + int(nbytes)]
+            if err == "eof":
+                closing = True
+            elif err == "reset":
+                sc.write(msg)
+                st.fault_when_drained = make_exc("ECONNRESET")
+                self.net_close_later = True
+                return
+            else:
+                sc.write(msg)
+                st.fault_when_drained = make_exc(err)
+                return
+        if o.get("segments"):
+            n = max(1, len(msg) // int(o["segments"]))
+            sc.write_segmented([msg[i : i + n] for i in range(0, len(msg), n)])
+        else:
+            sc.write(msg)
+        if o.get("stray"):
+            sc.write(o["stray"].encode("latin-1") if isinstance(o["stray"], str) else o["stray"])
+        if closing:
+            sc.close()
